@@ -9,6 +9,8 @@ History property.  A case is a *history*: a JSON list of 10-30 operations over a
     ["reseed", v]        np.random.seed(v)
     ["burn", n]          np.random.random_sample(n)
     ["det", p]           a function without random choices (deterministic group only)
+    ["ofit", p, s]       fit / fit_transform ONE persistent estimator or decomposition object that was built
+                         with the int seed seeds[s] at its first use and is re-fitted at every later use
 
 The oracle interprets the history against a reference model and checks the invariants after
 EVERY step (this is the RuleBasedStateMachine of DESIGN, encoded as one shrinkable value):
@@ -42,7 +44,9 @@ from tensorly.decomposition import (
     parafac, randomised_parafac, non_negative_parafac, non_negative_parafac_hals, constrained_parafac,
     tucker, partial_tucker, non_negative_tucker, non_negative_tucker_hals, parafac2,
     tensor_ring_als, tensor_ring_als_sampled, tensor_train, tensor_ring, CP, Tucker,
+    RandomizedCP, CP_NN, CP_NN_HALS, ConstrainedCP, Parafac2, TensorRingALS, TensorRingALSSampled,
 )
+from tensorly.decomposition._tucker import Tucker_NN, Tucker_NN_HALS
 from tensorly.decomposition import sample_khatri_rao
 from tensorly.contrib.decomposition import tensor_train_cross
 from tensorly.tenalg.svd import svd_interface, randomized_range_finder, randomized_svd
@@ -52,8 +56,9 @@ from vlib import gen, snap
 from vlib.engine import SubCheck, check, fail, discard, Fail
 
 PROPERTY = "C16"
-RULE = ("Histories of 10-30 operations (seeded call / identically-seeded generator pair / unseeded call / "
-        "np.random.seed / burn n global draws / deterministic call) over a pool of 1-3 (entry, parameters) pairs and "
+RULE = ("Histories of 10-30 operations (seeded call / identically-seeded generator pair / unseeded call / re-fit of one "
+        "persistent estimator or decomposition object built with an int seed / np.random.seed / burn n global draws / "
+        "deterministic call) over a pool of 1-3 (entry, parameters) pairs and "
         "1-3 seeds in [0, 2^32-1]; entries grouped in sub-checks: random generators, CP family, constrained CP, Tucker "
         "family, PARAFAC2/TR-ALS/TR-ALS-sampled/TT-cross, randomized SVD + sampling, regressors, deterministic "
         "functions; tensors of order 2-3, sides 2-4, rank 1-3, 1-3 iterations. Oracle: reference model (memo of "
@@ -86,6 +91,30 @@ def entry(name, params):
     return deco
 
 
+OBJECTS = {}     # name -> (make(params, random_state) -> estimator, fit(estimator, params) -> result)
+
+
+def obj_entry(name, params, make, fit):
+    """estimator / decomposition-class entry: usable as a plain entry (fresh object per call) and as a
+    *persistent* object that the history fits repeatedly (op "ofit")"""
+    OBJECTS[name] = (make, fit)
+    ENTRIES[name] = (params, lambda p, rs: fit(make(p, rs), p))
+
+
+def _ft(nonneg=False):
+    return lambda est, p: est.fit_transform(_x(p["shape"], p["xseed"], nonneg))
+
+
+def _mask(shape, mkind, mseed):
+    """None / float 0-1 mask / boolean mask with ~80 % observed entries (private generator)"""
+    if mkind == "none":
+        return None
+    m = np.random.RandomState(int(mseed) + 7).uniform(size=tuple(shape)) < 0.8
+    return m if mkind == "bool" else m.astype(float)
+
+
+_mk = st.sampled_from(["none", "float", "bool"])
+_mk_on = st.sampled_from(["float", "bool"])
 _shape23 = gen.shapes(2, 3, 2, 4)
 _shape3 = gen.shapes(3, 3, 2, 4)
 
@@ -196,9 +225,15 @@ def _e(p, rs):
                                      random_state=rs)
 
 
-@entry("CP.fit_transform", _p_data())
-def _e(p, rs):
-    return CP(p["rank"], n_iter_max=p["n_iter"], init="random", random_state=rs).fit_transform(_x(p["shape"], p["xseed"]))
+obj_entry("CP.fit_transform", _p_data(),
+          lambda p, rs: CP(p["rank"], n_iter_max=p["n_iter"], init="random", random_state=rs), _ft())
+obj_entry("RandomizedCP.fit_transform", _p_data(shape_st=_shape3, extra={"n_samples": st.integers(4, 8)}),
+          lambda p, rs: RandomizedCP(p["rank"], p["n_samples"], n_iter_max=p["n_iter"], init="random", random_state=rs, verbose=0),
+          _ft())
+obj_entry("CP_NN.fit_transform", _p_data(),
+          lambda p, rs: CP_NN(p["rank"], n_iter_max=p["n_iter"], init="random", random_state=rs), _ft(True))
+obj_entry("CP_NN_HALS.fit_transform", _p_data(),
+          lambda p, rs: CP_NN_HALS(p["rank"], n_iter_max=p["n_iter"], init="random", random_state=rs), _ft(True))
 
 
 # ---- constrained CP (D10 lives here) ---------------------------------------
@@ -222,16 +257,34 @@ def _e(p, rs):
                                init="svd", random_state=rs, **_ckw(p["cons"]))
 
 
+obj_entry("ConstrainedCP.fit_transform", _p_data(extra={"cons": _cons}),
+          lambda p, rs: ConstrainedCP(p["rank"], n_iter_max=p["n_iter"], n_iter_max_inner=3, init="random", random_state=rs,
+                                      **_ckw(p["cons"])), _ft(True))
+
+
 # ---- Tucker family ---------------------------------------------------------
 @entry("tucker_random", _p_data(rank_max=2))
 def _e(p, rs):
     return tucker(_x(p["shape"], p["xseed"]), [p["rank"]] * len(p["shape"]), n_iter_max=p["n_iter"], init="random", random_state=rs)
 
 
-@entry("tucker_randomized_svd", _p_data(rank_max=2))
+@entry("tucker_randomized_svd", _p_data(rank_max=2, extra={"mask": _mk}))
 def _e(p, rs):
     return tucker(_x(p["shape"], p["xseed"]), [p["rank"]] * len(p["shape"]), n_iter_max=p["n_iter"], init="svd",
-                  svd="randomized_svd", random_state=rs)
+                  svd="randomized_svd", random_state=rs, mask=_mask(p["shape"], p["mask"], p["xseed"]))
+
+
+@entry("partial_tucker_randomized_svd_masked", _p_data(shape_st=_shape3, rank_max=2, extra={"drop": st.integers(0, 2), "mask": _mk_on}))
+def _e(p, rs):
+    modes = [m for m in range(3) if m != p["drop"]]
+    return partial_tucker(_x(p["shape"], p["xseed"]), [p["rank"]] * 2, modes=modes, n_iter_max=p["n_iter"], init="svd",
+                          svd="randomized_svd", random_state=rs, mask=_mask(p["shape"], p["mask"], p["xseed"]))
+
+
+@entry("nn_tucker_hals_randomized_svd", _p_data(rank_max=2))
+def _e(p, rs):
+    return non_negative_tucker_hals(_x(p["shape"], p["xseed"], True), [p["rank"]] * len(p["shape"]), n_iter_max=p["n_iter"],
+                                    init="svd", svd="randomized_svd", random_state=rs)
 
 
 @entry("partial_tucker_random", _p_data(shape_st=_shape3, rank_max=2, extra={"drop": st.integers(0, 2)}))
@@ -253,10 +306,19 @@ def _e(p, rs):
                                     init="random", random_state=rs, algorithm=p["alg"])
 
 
-@entry("Tucker.fit_transform", _p_data(rank_max=2))
-def _e(p, rs):
-    return Tucker([p["rank"]] * len(p["shape"]), n_iter_max=p["n_iter"], init="random", random_state=rs).fit_transform(
-        _x(p["shape"], p["xseed"]))
+def _tr(p):
+    return [p["rank"]] * len(p["shape"])
+
+
+obj_entry("Tucker.fit_transform", _p_data(rank_max=2),
+          lambda p, rs: Tucker(_tr(p), n_iter_max=p["n_iter"], init="random", random_state=rs), _ft())
+obj_entry("Tucker.fit_transform_randomized_svd_masked", _p_data(rank_max=2, extra={"mask": _mk_on}),
+          lambda p, rs: Tucker(_tr(p), n_iter_max=p["n_iter"], init="svd", svd="randomized_svd", random_state=rs,
+                               mask=_mask(p["shape"], p["mask"], p["xseed"])), _ft())
+obj_entry("Tucker_NN.fit_transform", _p_data(rank_max=2),
+          lambda p, rs: Tucker_NN(_tr(p), n_iter_max=p["n_iter"], init="random", random_state=rs), _ft(True))
+obj_entry("Tucker_NN_HALS.fit_transform", _p_data(rank_max=2),
+          lambda p, rs: Tucker_NN_HALS(_tr(p), n_iter_max=p["n_iter"], init="random", random_state=rs), _ft(True))
 
 
 # ---- PARAFAC2 / tensor ring / TT-cross --------------------------------------
@@ -290,6 +352,51 @@ def _e(p, rs):
     return tensor_train_cross(X, [1, r, r, 1], tol=1e-4, n_iter_max=p["n_iter"] + 1, random_state=rs)
 
 
+def _p2rank(p):
+    return min(p["rank"], p["shape"][1], p["shape"][2])
+
+
+obj_entry("Parafac2.fit_transform", _p_data(shape_st=_shape3, rank_max=2, extra={"ls": st.booleans()}),
+          # return_errors=True: with the default (False) Parafac2.fit_transform cannot unpack parafac2's result (N7)
+          lambda p, rs: Parafac2(_p2rank(p), n_iter_max=p["n_iter"], init="random", random_state=rs, n_iter_parafac=2,
+                                 linesearch=p["ls"], return_errors=True), _ft())
+obj_entry("TensorRingALS.fit_transform", _p_data(shape_st=_shape3, rank_max=2),
+          lambda p, rs: TensorRingALS(p["rank"], n_iter_max=p["n_iter"], random_state=rs), _ft())
+obj_entry("TensorRingALSSampled.fit_transform", _p_data(shape_st=_shape3, rank_max=2, extra={"n_samples": st.integers(4, 8)}),
+          lambda p, rs: TensorRingALSSampled(p["rank"], p["n_samples"], n_iter_max=p["n_iter"], random_state=rs), _ft())
+
+
+# ---- svd="randomized_svd" inside the CP family / PARAFAC2 (N6: the seed is not threaded to svd_interface) ----
+@entry("parafac_randomized_svd", _p_data(rank_max=2, extra={"mask": _mk}))
+def _e(p, rs):
+    return parafac(_x(p["shape"], p["xseed"]), p["rank"], n_iter_max=p["n_iter"], init="svd", svd="randomized_svd",
+                   random_state=rs, mask=_mask(p["shape"], p["mask"], p["xseed"]))
+
+
+@entry("nn_parafac_randomized_svd", _p_data(rank_max=2, extra={"mask": _mk}))
+def _e(p, rs):
+    return non_negative_parafac(_x(p["shape"], p["xseed"], True), p["rank"], n_iter_max=p["n_iter"], init="svd",
+                                svd="randomized_svd", random_state=rs, mask=_mask(p["shape"], p["mask"], p["xseed"]))
+
+
+@entry("nn_parafac_hals_randomized_svd", _p_data(rank_max=2))
+def _e(p, rs):
+    return non_negative_parafac_hals(_x(p["shape"], p["xseed"], True), p["rank"], n_iter_max=p["n_iter"], init="svd",
+                                     svd="randomized_svd", random_state=rs)
+
+
+@entry("constrained_parafac_randomized_svd", _p_data(rank_max=2, extra={"cons": _cons}))
+def _e(p, rs):
+    return constrained_parafac(_x(p["shape"], p["xseed"], True), p["rank"], n_iter_max=p["n_iter"], n_iter_max_inner=3,
+                               init="svd", svd="randomized_svd", random_state=rs, **_ckw(p["cons"]))
+
+
+@entry("parafac2_randomized_svd", _p_data(shape_st=_shape3, rank_max=2, extra={"init": st.sampled_from(["random", "svd"])}))
+def _e(p, rs):
+    return parafac2(_x(p["shape"], p["xseed"]), _p2rank(p), n_iter_max=p["n_iter"], init=p["init"], svd="randomized_svd",
+                    random_state=rs, n_iter_parafac=2)
+
+
 # ---- randomized SVD, sampling ----------------------------------------------
 _p_mat = st.fixed_dictionaries({"m": st.integers(2, 6), "n": st.integers(2, 6), "k": st.integers(1, 4), "xseed": st.integers(0, 999),
                                 "n_iter": st.integers(0, 2)})
@@ -299,6 +406,16 @@ _p_mat = st.fixed_dictionaries({"m": st.integers(2, 6), "n": st.integers(2, 6), 
 def _e(p, rs):
     return svd_interface(_x([p["m"], p["n"]], p["xseed"]), method="randomized_svd", n_eigenvecs=min(p["k"], p["m"], p["n"]),
                          random_state=rs)
+
+
+@entry("svd_interface_randomized_masked", st.fixed_dictionaries({"m": st.integers(2, 6), "n": st.integers(2, 6), "k": st.integers(1, 3),
+                                                                 "xseed": st.integers(0, 999), "mask": _mk_on,
+                                                                 "reps": st.integers(1, 3), "nn": st.booleans()}))
+def _e(p, rs):
+    shape = [p["m"], p["n"]]
+    return svd_interface(_x(shape, p["xseed"], p["nn"]), method="randomized_svd", n_eigenvecs=min(p["k"], p["m"], p["n"]),
+                         mask=_mask(shape, p["mask"], p["xseed"]), n_iter_mask_imputation=p["reps"],
+                         non_negative=True if p["nn"] else None, random_state=rs)
 
 
 @entry("randomized_svd", _p_mat)
@@ -334,30 +451,36 @@ def _reg_data(p, multi_output=False):
     return X, y
 
 
-@entry("CPRegressor", _p_reg)
-def _e(p, rs):
+def _fit_cpreg(est, p):
     X, y = _reg_data(p, multi_output=True)
-    est = CPRegressor(weight_rank=p["rank"], n_iter_max=p["n_iter"], random_state=rs, verbose=0)
     est.fit(X, y)
     return (est.weight_tensor_, est.cp_weight_, est.predict(X))
 
 
-@entry("TuckerRegressor", _p_reg)
-def _e(p, rs):
+obj_entry("CPRegressor", _p_reg,
+          lambda p, rs: CPRegressor(weight_rank=p["rank"], n_iter_max=p["n_iter"], random_state=rs, verbose=0), _fit_cpreg)
+
+
+def _fit_tuckerreg(est, p):
     X, y = _reg_data(p)
-    est = TuckerRegressor(weight_ranks=[p["rank"]] * len(p["shape"]), n_iter_max=p["n_iter"], random_state=rs, verbose=0)
     est.fit(X, y)
     return (est.weight_tensor_, est.tucker_weight_, est.predict(X))
 
 
-@entry("CP_PLSR", _p_reg)
-def _e(p, rs):
+obj_entry("TuckerRegressor", _p_reg,
+          lambda p, rs: TuckerRegressor(weight_ranks=[p["rank"]] * len(p["shape"]), n_iter_max=p["n_iter"], random_state=rs,
+                                        verbose=0), _fit_tuckerreg)
+
+
+def _fit_plsr(est, p):
     g = np.random.RandomState(p["xseed"])
     X = g.standard_normal((p["n"],) + tuple(p["shape"]))
     Y = g.standard_normal((p["n"], 2))
-    est = CP_PLSR(n_components=p["rank"], n_iter_max=p["n_iter"] + 2, random_state=rs)
     est.fit(X, Y)
     return (est.X_factors, est.Y_factors, est.coef_, est.predict(X))
+
+
+obj_entry("CP_PLSR", _p_reg, lambda p, rs: CP_PLSR(n_components=p["rank"], n_iter_max=p["n_iter"] + 2, random_state=rs), _fit_plsr)
 
 
 # ---- functions without random choices ---------------------------------------
@@ -437,13 +560,20 @@ GROUPS = {
     "generators": ["random_tensor", "random_cp", "random_tucker", "random_tt", "random_tt_matrix", "random_tr", "random_parafac2",
                    "tl.randn", "tl.gamma"],
     "cp": ["parafac_random", "parafac_svd_padded", "parafac_masked_random", "randomised_parafac", "nn_parafac_random",
-           "nn_parafac_hals_random", "CP.fit_transform"],
-    "constrained_cp_random": ["constrained_parafac_random"],
+           "nn_parafac_hals_random", "CP.fit_transform", "RandomizedCP.fit_transform", "CP_NN.fit_transform",
+           "CP_NN_HALS.fit_transform"],
+    "cp_family_randomized_svd": ["parafac_randomized_svd", "nn_parafac_randomized_svd", "nn_parafac_hals_randomized_svd",
+                                 "constrained_parafac_randomized_svd", "parafac2_randomized_svd"],
+    "constrained_cp_random": ["constrained_parafac_random", "ConstrainedCP.fit_transform"],
     "constrained_cp_svd": ["constrained_parafac_svd_padded"],
-    "tucker": ["tucker_random", "tucker_randomized_svd", "partial_tucker_random", "nn_tucker_random", "nn_tucker_hals_random",
-               "Tucker.fit_transform"],
-    "parafac2_tr_ttcross": ["parafac2_random", "tensor_ring_als", "tensor_ring_als_sampled", "tensor_train_cross"],
-    "svd_sampling": ["svd_interface_randomized", "randomized_svd", "randomized_range_finder", "sample_khatri_rao"],
+    "tucker": ["tucker_random", "tucker_randomized_svd", "partial_tucker_randomized_svd_masked", "nn_tucker_hals_randomized_svd",
+               "partial_tucker_random", "nn_tucker_random", "nn_tucker_hals_random",
+               "Tucker.fit_transform", "Tucker.fit_transform_randomized_svd_masked", "Tucker_NN.fit_transform",
+               "Tucker_NN_HALS.fit_transform"],
+    "parafac2_tr_ttcross": ["parafac2_random", "tensor_ring_als", "tensor_ring_als_sampled", "tensor_train_cross",
+                            "Parafac2.fit_transform", "TensorRingALS.fit_transform", "TensorRingALSSampled.fit_transform"],
+    "svd_sampling": ["svd_interface_randomized", "svd_interface_randomized_masked", "randomized_svd", "randomized_range_finder",
+                     "sample_khatri_rao"],
     "regressors": ["CPRegressor", "TuckerRegressor", "CP_PLSR"],
     "deterministic": [n for n in ENTRIES if n.startswith("det:")],
 }
@@ -469,6 +599,8 @@ def _history(draw, group):
     else:
         ops = [st.tuples(st.just("call"), pi, si), st.tuples(st.just("call"), pi, si), st.tuples(st.just("pair"), pi, si),
                st.tuples(st.just("unseeded"), pi)] + glob
+        if any(pe["entry"] in OBJECTS for pe in pool):
+            ops += [st.tuples(st.just("ofit"), pi, si)] * 2
     hist = draw(st.lists(st.one_of(*ops), min_size=10, max_size=30))
     return {"g0": draw(st.integers(0, SEED_MAX)), "pool": pool, "seeds": seeds, "ops": [list(o) for o in hist]}
 
@@ -501,6 +633,16 @@ def _call(name, params, rs):
     return snap.freeze(res)
 
 
+def _call_fit(name, est, params):
+    try:
+        with warnings.catch_warnings():
+            warnings.simplefilter("ignore")
+            res = OBJECTS[name][1](est, params)
+    except LINALG:
+        return ("exc", "LinAlgError")
+    return snap.freeze(res)
+
+
 def o_history(case):
     saved = np.random.get_state()
     try:
@@ -514,6 +656,8 @@ def _interpret(case):
     np.random.seed(int(case["g0"]))
     shadow = np.random.RandomState(int(case["g0"]))          # model of the global generator
     memo = {}          # key -> (frozen result, global state at first call)
+    objects = {}       # (pool index, seed index) -> persistent estimator built once with the int seed
+    n_objfits = {}
     perturbed_repeat = False
     n_exc = 0
     kinds = set()
@@ -535,6 +679,22 @@ def _interpret(case):
             if kind == "call":
                 seed = int(seeds[op[2]])
                 res = _call(name, params, seed)
+                key = ("int", name, pkey, seed)
+            elif kind == "ofit":
+                # persistent object: ONE estimator constructed with an int seed, fitted again and again; every fit
+                # must give the result of a fresh int-seeded call (same memo key as "call")
+                seed = int(seeds[op[2]])
+                if name in OBJECTS:
+                    okey = (op[1], op[2])
+                    if okey not in objects:
+                        with warnings.catch_warnings():
+                            warnings.simplefilter("ignore")
+                            objects[okey] = OBJECTS[name][0](params, seed)
+                        n_objfits[okey] = 0
+                    n_objfits[okey] += 1
+                    res = _call_fit(name, objects[okey], params)
+                else:
+                    res = _call(name, params, seed)
                 key = ("int", name, pkey, seed)
             elif kind == "pair":
                 seed = int(seeds[op[2]])
@@ -571,18 +731,19 @@ def _interpret(case):
                       lambda: f"{where}: the call changed the global NumPy RNG state")
         # model invariant after every step
         check(_gstate() == _rstate(shadow), "global/model", lambda: f"{where}: global RNG state differs from the reference model")
-    n_calls = sum(1 for o in case["ops"] if o[0] in ("call", "pair", "unseeded", "det"))
+    n_calls = sum(1 for o in case["ops"] if o[0] in ("call", "pair", "unseeded", "det", "ofit"))
     if n_calls and n_exc == n_calls:
         discard("every call raised (LinAlgError / TT-cross did not converge)")
     labels = [f"steps={10 * (len(case['ops']) // 10)}+", f"perturbed_repeat={perturbed_repeat}", f"linalg_results={min(n_exc, 3)}"]
     labels += [f"entry={pe['entry']}" for pe in {json.dumps(x, sort_keys=True): x for x in pool}.values()]
     labels += [f"op={k}" for k in sorted(kinds)]
+    labels.append(f"object_refits={min(3, max([v - 1 for v in n_objfits.values()] or [0]))}")
     return {"nontrivial": perturbed_repeat, "labels": labels}
 
 
 def subchecks(tier):
-    cost = {"generators": (400, 3000), "cp": (150, 1500), "constrained_cp_random": (100, 1000), "constrained_cp_svd": (80, 800),
-            "tucker": (150, 1500), "parafac2_tr_ttcross": (120, 1200), "svd_sampling": (300, 2200), "regressors": (160, 1600),
+    cost = {"generators": (250, 3000), "cp": (150, 1500), "cp_family_randomized_svd": (80, 800), "constrained_cp_random": (100, 1000), "constrained_cp_svd": (80, 800),
+            "tucker": (150, 1500), "parafac2_tr_ttcross": (120, 1200), "svd_sampling": (200, 2200), "regressors": (160, 1600),
             "deterministic": (150, 1500)}
     return [SubCheck(f"history/{g}", _history(g), o_history, quick=cost[g][0], thorough=cost[g][1], case_timeout=120)
             for g in GROUPS]
